@@ -233,6 +233,7 @@ def _oracle_calc_stats(call):
 
 
 def install():
+    probe.enable_recall("C14.recall", every=5)
     probe.instrument("esutil.stat.util:histogram", [_oracle_histogram], also=["esutil.stat"])
     probe.instrument("esutil.stat.util:Binner.dohist", [_oracle_dohist])
     probe.instrument("esutil.stat.util:Binner.calc_stats", [_oracle_calc_stats])
@@ -266,6 +267,24 @@ def run_case(case):
         probe.attempt(b.dohist, calc_stats=not two, rev=True, **kw)
         if two:
             probe.attempt(b.calc_stats)
+        if lr.random() < .4 and data.size > 1 and "nperbin" not in kw:
+            # the same Binner asked again with other limits: first limits that cut into the data, then none, then one
+            # of the two - every call is judged on its own arguments by the wrappers (nothing may stick to the object)
+            base = {k: v for k, v in kw.items() if k not in ("min", "max")}
+            fin = np.asarray(data, dtype="f8")
+            fin = fin[np.isfinite(fin)]
+            if fin.size > 1 and fin.max() > fin.min():
+                # limits are data values themselves (a range holding no datum is rejected by design)
+                srt = np.sort(fin)
+                lo, hi = (srt[int(0.3 * (srt.size - 1))], srt[int(np.ceil(0.7 * (srt.size - 1)))]) if lr.random() < .7 else \
+                    (float(fin.min()) - 1.0, float(fin.max()) + 1.0)
+                if hi > lo:
+                    seq = [dict(base, min=float(lo), max=float(hi)), dict(base), dict(base, max=float(hi)), dict(base, min=float(lo)), dict(base)]
+                    for j in lr.permutation(len(seq))[: int(lr.integers(2, 6))]:
+                        two2 = bool(lr.integers(0, 2))
+                        r, e = probe.attempt(b.dohist, calc_stats=not two2, rev=True, **seq[int(j)])
+                        if two2 and e is None:
+                            probe.attempt(b.calc_stats)
     if y is None:
         if w is not None:
             probe.attempt(st.histogram, data, weights=w, **kw)
